@@ -5,9 +5,12 @@ handler (Driver/H*.lean); the first handler that recognises the op answers.
 -/
 import Driver.HTy
 import Driver.HVal
+import Driver.HNum
+import Driver.HOps
+import Driver.HFunc
 open CtyModel
 
-def handlers : List Handler := [handleTy, handleVal]
+def handlers : List Handler := [handleTy, handleVal, handleNum, handleOps, handleFunc]
 
 def handle (op : String) (args : List Sexp) : String :=
   match handlers.findSome? (fun h => h op args) with
